@@ -37,6 +37,12 @@ class Cfg:
                 seen.add(t); dq.append(t)
         return seen
 
+    def reach_sens(self, du, edge, blocked_nodes=(), blocked_edges=()):
+        """blocks reachable after taking `edge` (src,label,dst), pruning branches whose outcome that edge already decides
+        (known enum variants and constants are propagated, `?` is modelled; see vlib/absval.py)"""
+        from . import absval
+        return absval.sens_reach_from_edge(self, du, edge, blocked_nodes, blocked_edges)
+
     def reach_from_edges(self, edges, blocked_nodes=(), blocked_edges=()):
         """blocks reachable after taking one of the given edges [(src,label,dst)]"""
         starts = [e[-1] for e in edges]
@@ -252,34 +258,25 @@ class Slice:
         return out
 
 
-def enumerate_paths(cfg, start, stop_pred, max_paths=20000, max_len=400, du=None, on_limit=None, keep_dead=False):
+def enumerate_paths(cfg, start, stop_pred, max_paths=20000, max_len=400, du=None, on_limit=None, keep_dead=False, env0=None):
     """Enumerate acyclic paths (lists of block indices) from `start` until
     stop_pred(block) is true or a return/diverging block is hit. Drop flags and
     other locals with constant-only definitions are propagated along the path so
     that infeasible branches of drop-elaboration diamonds are pruned."""
+    from . import absval
     body = cfg.body
     du = du or DefUse(body)
-    constlocals = {l for l in du.defs if du.const_only(l) is not None}
     paths = []
-    def step_env(env, b):
-        for s in body.blocks[b].stmts:
-            if s.kind == "assign" and not s.lhs.p and s.lhs.l in constlocals and s.rv == "use" and s.ops[0].is_const:
-                env = dict(env); env[s.lhs.l] = s.ops[0].cint()
-        return env
-    stack = [(start, [start], {}, frozenset([start]))]
+    stack = [(start, [start], env0 or {}, frozenset([start]))]
     while stack:
         b, path, env, onpath = stack.pop()
-        env = step_env(env, b)
+        env = absval.step_block(body, env, b)
         blk = body.blocks[b]
         if stop_pred(blk) and len(path) > 1 or (stop_pred(blk) and b != start):
             paths.append(path); continue
-        succs = cfg.succ[b]
         t = blk.term
-        if t.kind == "switch" and t.discr.place is not None and not t.discr.place.p and t.discr.place.l in env:
-            v = env[t.discr.place.l]
-            chosen = [(lab, d) for lab, d in succs if lab == v]
-            if not chosen: chosen = [(lab, d) for lab, d in succs if lab == "otherwise"]
-            succs = chosen
+        succs = absval.feasible_succs(env, t, cfg.succ[b])
+        env2 = absval.step_term(env, t)
         if not succs:
             # `unreachable` blocks and diverging calls: not an execution that returns
             if keep_dead: paths.append(path)
@@ -290,7 +287,9 @@ def enumerate_paths(cfg, start, stop_pred, max_paths=20000, max_len=400, du=None
             if len(path) >= max_len or len(paths) + len(stack) > max_paths:
                 if on_limit: on_limit()
                 paths.append(path + [-1]); continue
-            stack.append((d, path + [d], env, onpath | {d}))
+            e3 = env2 if lab != "unwind" else env
+            if t.kind == "switch": e3 = absval.refine_on_edge(body, du, e3, b, lab, d)
+            stack.append((d, path + [d], e3, onpath | {d}))
     return paths
 
 
@@ -370,16 +369,16 @@ def promoted_consts(body, op_or_const):
     k = op_or_const.const if hasattr(op_or_const, "const") else op_or_const
     dbg = (k or {}).get("dbg", "") or (k or {}).get("str", "") or ""
     if "promoted[" not in str(dbg): return []
-    idx = int(str(dbg).split("promoted[")[1].split("]")[0])
+    from .facts import promoted_body
+    pb = promoted_body(body, dbg)
     out = []
-    for b in body.unit.bodies:
-        if b.path == body.path and b.promoted == idx:
-            for s in b.stmts():
-                if s.kind == "assign":
-                    for o in s.ops:
-                        if o.is_const:
-                            if o.cstr() is not None: out.append(o.cstr())
-                            elif o.cint() is not None: out.append(o.cint())
+    if pb is not None:
+        for s in pb.stmts():
+            if s.kind == "assign":
+                for o in s.ops:
+                    if o.is_const:
+                        if o.cstr() is not None: out.append(o.cstr())
+                        elif o.cint() is not None: out.append(o.cint())
     return out
 
 
